@@ -245,6 +245,11 @@ def p_work(uid, markdir=None, steps=6, fail=False):
         mark(markdir, 'finally.%s' % uid)
 
 
+def big_uid(uid, n=100):
+    """Persistent target with a result of n bytes."""
+    return [uid, b'x' * n]
+
+
 def swallow_loop(markdir=None):
     mark(markdir, 'entered')
     while True:
